@@ -65,10 +65,14 @@ func VerifHarness_C08() {
 		annots = []int{0, 2} // the annotation protects from removal, not from tainting
 	}
 	w.symNodes("", g, N, classes, dry > 0, annots, true) // in dry mode cordoned nodes are candidates like any other
+	noAlloc := false
 	if zero == 2 {
 		// provider ids that are empty (not yet set by the cloud controller) or shared by two Node objects
 		for i, n := range w.nodes {
-			switch verifChoice("n"+strconv.Itoa(i)+".providerID", 3) {
+			switch verifChoice("n"+strconv.Itoa(i)+".providerID", 4) {
+			case 3:
+				n.obj.Status.Allocatable = nil // kubelet status lost: zero capacity, still a candidate
+				noAlloc = true
 			case 1:
 				n.obj.Spec.ProviderID = ""
 			case 2:
@@ -131,7 +135,7 @@ func VerifHarness_C08() {
 			verifAssert("C08.oldest-first", !(u.createAge > t.createAge))
 		}
 	}
-	if F == 0 && dry == 0 {
+	if F == 0 && dry == 0 && !noAlloc { // (with capacity missing the group may have no utilisation figure at all)
 		j := w.summarize(g, mark)
 		s := w.snap(g)
 		verifAssert("C08.count", verifImplies(s.untainted > 0, int64(j.taintAdds) == imin(fast, s.untainted)))
